@@ -1161,8 +1161,10 @@ func rebase(out, c0, c context) context {
 func (e *escaper) computeOutCtx(c context, t *template.Template) context {
 	// Propagate context over the body.
 	c1, ok, recursive := e.escapeTemplateBody(c, c, t)
-	if !ok {
-		// Look for a fixed point by assuming c1 as the output context.
+	if !ok && c1.state != stateError {
+		// Look for a fixed point by assuming c1 as the output context. (After an error
+		// there is nothing to assume: a second pass would meet the error again, and with
+		// one more pass per level a call chain that ends in an error took 2^depth passes.)
 		if c2, ok2, _ := e.escapeTemplateBody(c, c1, t); ok2 {
 			c1, ok = c2, true
 		}
